@@ -24,7 +24,20 @@
 #include "alloc.h"
 #define VP_NFD 12
 #include "kernel_io.h"
+/* event_reinit() clears base->sig.ev_signal with memset(); cbmc's memset model on a sub-object turns the whole
+ * (typed) event_base into a byte-updated blob and every list head / function pointer in it stops being foldable
+ * (symex then wanders into watchers, common timeouts ...).  A memset of exactly one struct event / struct
+ * event_callback with 0 is done as a typed assignment instead; everything else goes to the library memset. */
+#include <string.h>
+static void *vp_memset_typed(void *p, int c, size_t n)
+{
+	if (c == 0 && n == sizeof(struct event)) { static const struct event z; *(struct event *)p = z; return p; }
+	if (c == 0 && n == sizeof(struct event_callback)) { static const struct event_callback z; *(struct event_callback *)p = z; return p; }
+	return (memset)(p, c, n);
+}
+#define memset(p, c, n) vp_memset_typed((p), (c), (n))
 #include "event.c"
+#undef memset
 #include "typed_alloc.h"
 #undef mm_realloc
 #undef mm_calloc
